@@ -6,11 +6,12 @@
    (no group), B (group G1), C (groups G1, G2), the dynamic script D, the native GAS contract as caller
    (nX = GAS.transfer hop into X.onNEP17Payment), a leaf frame without ReadStates (qX), and the native
    contract's own check (.g)) and for every account of Accts:
-      - the answer of the ABSTRACT specification Witness!Check       (printed: the oracle for real code)
+      - the answer of the ABSTRACT specification Witness!CodeX       (printed: the oracle for real code;
+        0/2 must refuse, 1 must grant, 3 may do either, packed base 4 per context)
       - the answer of the implementation-shaped model WitnessImpl    (checked: ImplAgrees)
    and prints the case as JSON (marker @@CASE@@).  The universe itself is printed once (kind "universe").
 
-   Context ids:  "e" ("." link)*  [".g"],  link = cX | nX | qX | dyn,  e.g. "e.cA.nB.dyn", "e.cA.g". *)
+   Context ids:  "e" ("." link)*  [".g"],  link = cX | nX | qX | dyn | dye,  e.g. "e.cA.nB.dyn", "e.cA.g". *)
 EXTENDS Integers, Sequences, FiniteSets, TLC, Json
 
 CONSTANTS Family,      \* which family of signer configurations
@@ -28,8 +29,11 @@ Frame(name, kind, rs) ==
     [name |-> name, groups |-> IF name \in DOMAIN Tbl THEN Tbl[name] ELSE <<>>, rs |-> rs, kind |-> kind]
 
 Lk(k, n) == [k |-> k, n |-> n]
-LinkSeq == << Lk("c", "A"), Lk("c", "B"), Lk("c", "C"), Lk("n", "A"), Lk("n", "B"), Lk("n", "C"), Lk("dyn", "") >>
-LinkId(l) == IF l.k = "dyn" THEN "dyn" ELSE l.k \o l.n
+\* "dye" loads a dynamic COPY OF THE ENTRY SCRIPT (same hash as the entry script, but not the entry context); it is part
+\* of the universes of the std and small families only
+LinkSeq == << Lk("c", "A"), Lk("c", "B"), Lk("c", "C"), Lk("n", "A"), Lk("n", "B"), Lk("n", "C"), Lk("dyn", "D") >>
+           \o (IF Family \in {"std", "small"} THEN << Lk("dyn", "E") >> ELSE <<>>)
+LinkId(l) == IF l.k = "dyn" THEN (IF l.n = "E" THEN "dye" ELSE "dyn") ELSE l.k \o l.n
 
 RECURSIVE Flat(_)
 Flat(ss) == IF ss = <<>> THEN <<>> ELSE Head(ss) \o Flat(Tail(ss))
@@ -54,7 +58,7 @@ Expand(ls, i) ==
     ELSE (CASE ls[i].k = "c"   -> << Frame(ls[i].n, "call", TRUE) >>
             [] ls[i].k = "q"   -> << Frame(ls[i].n, "call", FALSE) >>
             [] ls[i].k = "n"   -> << Frame("GAS", "native", TRUE), Frame(ls[i].n, "onpay", TRUE) >>
-            [] ls[i].k = "dyn" -> << Frame("D", "dyn", TRUE) >>) \o Expand(ls, i + 1)
+            [] ls[i].k = "dyn" -> << Frame(ls[i].n, "dyn", TRUE) >>) \o Expand(ls, i + 1)
 Chain(ls) == << Frame("E", "entry", TRUE) >> \o Expand(ls, 1)
 
 RECURSIVE IdFrom(_, _)
@@ -125,7 +129,7 @@ ScopeSeq(e, c, g, r) == (IF e THEN <<"CalledByEntry">> ELSE <<>>) \o (IF c THEN 
                         \o (IF g THEN <<"CustomGroups">> ELSE <<>>) \o (IF r THEN <<"Rules">> ELSE <<>>)
 Mixed == {Std(Sg("S", ScopeSeq(e, c, g, r), IF c THEN cl ELSE <<>>, IF g THEN gl ELSE <<>>, IF r THEN rl ELSE <<>>)) :
               e \in BOOLEAN, c \in BOOLEAN, g \in BOOLEAN, r \in BOOLEAN,
-              cl \in {<<"A">>, <<"B", "C">>}, gl \in {<<"G1">>, <<"G2", "G3">>}, rl \in MixedRules}
+              cl \in {<<"A">>, <<"B", "C">>}, gl \in {<<"G1">>, <<"G2", "G3">>, <<>>}, rl \in MixedRules}
 
 (* who the subject is and where it stands in the signer list *)
 SubjScopes(a) == { Sg(a, <<>>, <<>>, <<>>, <<>>), Sg(a, <<"Global">>, <<>>, <<>>, <<>>),
@@ -158,7 +162,7 @@ Configs ==
 VARIABLES cfg, out
 
 Acct(c, i, k) == IF AcctOf[i][k] = "S" THEN c.subj ELSE AcctOf[i][k]
-AbsTable(c) == [i \in 1..NCtx |-> [k \in DOMAIN Accts |-> W!Code(W!CheckX(c.signers, Acct(c, i, k), AbsCtx[i]))]]
+AbsTable(c) == [i \in 1..NCtx |-> [k \in DOMAIN Accts |-> W!CodeX(c.signers, Acct(c, i, k), AbsCtx[i])]]
 ImpTable(c) == [i \in 1..NCtx |-> [k \in DOMAIN Accts |-> W!Code(M!ImplCheckSt(c.signers, Acct(c, i, k), ImpCtx[i], Tbl))]]
 
 Todo == [exp |-> <<>>, imp |-> <<>>]
@@ -169,9 +173,9 @@ Next == /\ out = Todo
         /\ UNCHANGED cfg
 Spec == Init /\ [][Next]_<<cfg, out>>
 
-Pow3 == <<1, 3, 9, 27, 81, 243, 729, 2187>>
+Pow4 == <<1, 4, 16, 64, 256, 1024, 4096, 16384>>
 RECURSIVE PackFrom(_, _)
-PackFrom(r, k) == IF k > Len(r) THEN 0 ELSE r[k] * Pow3[k] + PackFrom(r, k + 1)
+PackFrom(r, k) == IF k > Len(r) THEN 0 ELSE r[k] * Pow4[k] + PackFrom(r, k + 1)
 Pack(r) == PackFrom(r, 1)
 
 \* places where the Impl model's answer differs from the abstract one (as values; grant-differences are errors)
@@ -179,8 +183,11 @@ Diff == IF out = Todo THEN {} ELSE
         LET D == {<<i, k>> \in (DOMAIN CtxSeq) \X (DOMAIN Accts) : out.exp[i][k] # out.imp[i][k]} IN
         {<<d[1], d[2], out.imp[d[1]][d[2]]>> : d \in D}
 
-(* Impl => Abstract: the implementation-shaped model grants exactly where the judge grants *)
-ImplAgrees == out # Todo => \A i \in DOMAIN CtxSeq : \A k \in DOMAIN Accts : (out.exp[i][k] = 1) <=> (out.imp[i][k] = 1)
+(* Impl => Abstract: the implementation-shaped model grants only where the judge lets it (codes 1, 3) and
+   wherever the judge demands it (code 1) *)
+ImplAgrees == out # Todo => \A i \in DOMAIN CtxSeq : \A k \in DOMAIN Accts :
+                  /\ out.exp[i][k] = 1 => out.imp[i][k] = 1
+                  /\ out.imp[i][k] = 1 => out.exp[i][k] \in {1, 3}
 
 Emit == out = Todo \/ PrintT(<<"@@CASE@@", ToJson([kind |-> "case", family |-> Family, subj |-> cfg.subj, signers |-> cfg.signers,
                                      exp |-> [i \in DOMAIN CtxSeq |-> Pack(out.exp[i])],
